@@ -295,6 +295,31 @@ def run_sampler(case, counters, viol, nontrivial):
         s2, h2 = a2.sample_posterior(32, sampler=smp, return_history=True, resume_from=payloads[0], **kw2)
         pops.append(("resumed-returned", s2))
         pops += [(f"resumed-history[{i}]", p) for i, p in enumerate(h2.sample_history)]
+    if payloads and smp in ("smc", "emcee_smc") and not case.get("precond"):
+        # the finished checkpoint continued by a sampler of another namespace: the restored / returned population is a
+        # conversion of the stored one - same values, same width (the requested one, or the stored one if none was requested)
+        stored = pickle.loads(payloads[-1])["samples"]
+        for b in NS:
+            if b == xpn:
+                continue
+            kw3 = {k: v for k, v in kw.items() if k not in ("checkpoint_callback", "checkpoint_every")}
+            if smp == "smc":
+                kw3["rng"] = np.random.default_rng(5)
+            a5, _ = make_aspire(t, b, dtype=dt, seed=int(case["seed"][-1]), flow_kwargs=fk)
+            counters["continued_in_another_namespace"] += 1
+            try:
+                s5 = a5.sample_posterior(32, sampler=smp, resume_from=payloads[-1], **kw3)
+            except Exception as exc:  # noqa: BLE001
+                viol.append({"mech": "C15/continuation-in-another-namespace-raises", "detail": f"{where} -> {b}: {type(exc).__name__}: {str(exc)[:160]}"})
+                continue
+            w_stored = width_of(stored.x)
+            w_want = want if want is not None else w_stored
+            if ns_name_of_array(s5.x) != b:
+                viol.append({"mech": "C15/run-population-namespace", "detail": f"{where} -> continued in {b}: returned x is {type(s5.x).__name__}"})
+            if width_of(s5.x) != w_want:
+                viol.append({"mech": "C15/continuation-in-another-namespace-changes-width", "detail": f"{where} -> continued in {b}: stored width {w_stored}, requested {want}, returned {width_of(s5.x)}"})
+            elif _vals(s5.x).shape == _vals(stored.x).shape and not np.array_equal(_vals(s5.x), _vals(stored.x)):
+                viol.append({"mech": "C15/continuation-in-another-namespace-changes-values", "detail": f"{where} -> continued in {b}: max |dx| {np.max(np.abs(_vals(s5.x) - _vals(stored.x))):.3g}"})
     for name, p in pops:
         counters["populations_watched"] += 1
         for fld in ("x", "log_likelihood", "log_prior", "log_q"):
